@@ -8,6 +8,7 @@ import HdVerif.Proofs.VolumeArgs
 import HdVerif.Proofs.VolumeLabels
 import HdVerif.Proofs.VolumeOrientAll
 import HdVerif.Proofs.VolumeConv
+import HdVerif.Proofs.VolumeRigid
 /-! # C08  Volume operations never move a voxel in physical space
 
 Property theorems only (helper lemmas: `Proofs/Volume.lean`; model: `Model/Volume.lean`).
@@ -852,6 +853,26 @@ the missing axis is regenerated, T9m), every axis not listed keeps its place, li
 theorem random_permute_spec (axes drawn : List Int) (hv : randomAxesOk axes = true)
     (hr : isRearrangement axes drawn = true) : randomPermuteGood axes drawn = true :=
   randomPermute_good hv hr
+
+/-! ## rigidity: rearrangements that restore the columns restore everything -/
+
+/-- **Any two rearrangements (flip, permute, swap, re-orientation, handedness, copy) after which the affine has the columns of
+the input are, together, the identity**: same shape, same translation, every voxel back at its index (scaled orthogonal
+input).  No voxel can end up elsewhere without the columns showing it. -/
+theorem rearrangement_restoring_columns_is_identity (coord : Coord) (g : Geom) (op1 op2 : SOp) (r1 r2 : GStep)
+    (ho : g.Orth) (hp : g.Pos) (k1 : op1.rearranges = true) (k2 : op2.rearranges = true)
+    (e1 : op1.applyGeom coord g = .ok r1) (e2 : op2.applyGeom coord r1.1 = .ok r2)
+    (h0 : r2.1.c0 = g.c0) (h1 : r2.1.c1 = g.c1) (h2 : r2.1.c2 = g.c2) : r2.1 = g ∧ ∀ j, r1.2 (r2.2 j) = j :=
+  rearranging_pair_identity AxMap.size szOk_size ho hp k1 k2 e1 e2 h0 h1 h2
+
+/-- **to_patient_orientation there and back = identity** (axis-aligned geometries, all 48 × 48 pairs, any positive spacings,
+position, shape): re-orienting to `des` and then to the original orientation gives the original shape and affine, and every
+voxel its original index. -/
+theorem toPatientOrientation_roundtrip_is_identity (g : Geom) (cur des : Orient) (hc : cur ∈ allOrients) (hd : des ∈ allOrients)
+    (hp : g.Pos) (h0 : OnAxis g.c0 cur.1) (h1 : OnAxis g.c1 cur.2.1) (h2 : OnAxis g.c2 cur.2.2) :
+    ∃ r1 r2, (SOp.toOrientation (orientChars des)).applyGeom .patient g = .ok r1 ∧
+      (SOp.toOrientation (orientChars cur)).applyGeom .patient r1.1 = .ok r2 ∧ r2.1 = g ∧ ∀ j, r1.2 (r2.2 j) = j :=
+  toOrientation_roundtrip AxMap.size szOk_size hc hd hp h0 h1 h2
 
 /-! ## `center_position` and `get_affine(output_convention)` -/
 
